@@ -331,7 +331,7 @@ static std::vector<vc::Point> runSampler(const SCfg &c, const std::map<size_t, i
     SProblem P(c);
     vc::Oracle o;
     o.dev = dev;
-    o.horizon = 20000;
+    o.horizon = c.sampler == "ordered" ? 600000 : 20000;  // ordered: up to 100 batches of 3 inner calls of up to 100 iterations each
     // thresholds of the 1/K rule for K = 2 and 3
     for (double k : {2.0, 3.0})
     {
@@ -359,6 +359,7 @@ static std::vector<vc::Point> runSampler(const SCfg &c, const std::map<size_t, i
             for (int call = 0; call < 4; ++call)
             {
                 double Ck = P.dmin + (C - P.dmin) * (1.0 - 0.2 * call);
+                C = Ck;  // bounds only shrink (the samplers drop spheroids that cannot help any more): everything after this call refers to Ck
                 ok = smp->sampleUniform(s, ob::Cost(Ck));
                 if (!ok)
                     break;
@@ -367,7 +368,6 @@ static std::vector<vc::Point> runSampler(const SCfg &c, const std::map<size_t, i
                 double hk = P.heuristic(P.pos(s));  // the focal sum of the wrapped direct sampler (independent computation)
                 if (!(hk < Ck * (1 + 1e-9)))
                     fail("C15|ordered|cost-not-below-bound", "call " + std::to_string(call) + ": heuristic solution cost " + vf::jnum(hk) + " >= the bound " + vf::jnum(Ck) + " of that call");
-                C = Ck;
             }
         }
         else
@@ -375,7 +375,7 @@ static std::vector<vc::Point> runSampler(const SCfg &c, const std::map<size_t, i
     }
     catch (vc::Horizon &)
     {
-        fail("C15|" + c.sampler + "|draw-horizon", "more than 20000 draws in one sampleUniform call limited to 100 iterations");
+        fail("C15|" + c.sampler + "|draw-horizon", "more than " + std::to_string(o.horizon) + " draws in one sampleUniform call limited to 100 iterations");
         P.space->freeState(s);
         return o.trace;
     }
